@@ -22,8 +22,8 @@ import (
 // Leaf carries two immediate rules and one either group: the group clause is produced after the whole walk, so the
 // path it is reported under must have been kept per sub-object.
 type Leaf struct {
-	V  string `valid:"required"`
-	W  int    `valid:"to=1~3"`
+	V  string `valid:"required,to=1~4"`
+	W  int    `valid:"to=1~3,noeq=7"`
 	G1 string `valid:"either=7"`
 	G2 string `valid:"either=7"`
 }
@@ -383,7 +383,13 @@ func run(c *runner.Ctx) {
 	// depth 2, one field: every container x mark x value x extras x every top-level wrapper
 	c.Space(pfx + "depth2/one-field")
 	for _, ct := range containers(leafT) {
-		for _, mk := range marks {
+		mks := marks
+		if ct.Kind() == reflect.Slice {
+			// the marker is one rule of several: the rules after (and before) it are judged on the field itself, after the
+			// sub-objects - whose fields have rule lists of their own - have been walked
+			mks = append(append([]string{}, marks...), "required,le=1", "exist,le=1,ge=1", "le=1,required", "required,ge=3|m3,le=1|m1", "ge=3,exist,le=1")
+		}
+		for _, mk := range mks {
 			for ex := 0; ex < 6; ex++ {
 				fields := append([]reflect.StructField{{Name: "F0", Type: ct, Tag: tagOf(mk)}}, extraFields(ex)...)
 				st := reflect.StructOf(fields)
@@ -781,7 +787,7 @@ func main() {
 	runner.Main(runner.Config{
 		Property:  "C04",
 		Technique: "bounded-exhaustive enumeration of acyclic object graphs (container grammar, depth<=3) vs walk reference model (expected clause/path list)",
-		Rule: "types: 19 containers of Leaf {T,*T,**T,[]T,[]*T,[]**T,[2]T,[2]*T,map[string]T,map[string]*T,map[int]*T,map[bool]T,map[int32]**T,map[float64]*T,map[struct]T,map[interface{}]*T,map[[2]int]T,map[uint8]T,map[struct{A,B string}]*T; NaN keys, distinct keys that print the same} x marks {required, exist, none, 'required,exist', 'exist,required', 'exist,exist'} as one or two fields (+unexported incl. names starting with '_' / a CJK or non-ASCII lower-case letter, time.Time, unmarked extras), " +
+		Rule: "types: 19 containers of Leaf {T,*T,**T,[]T,[]*T,[]**T,[2]T,[2]*T,map[string]T,map[string]*T,map[int]*T,map[bool]T,map[int32]**T,map[float64]*T,map[struct]T,map[interface{}]*T,map[[2]int]T,map[uint8]T,map[struct{A,B string}]*T; NaN keys, distinct keys that print the same} x marks {required, exist, none, 'required,exist', 'exist,required', 'exist,exist'} as one or two fields, on slices also with size rules before / after the marker ('required,le=1', 'exist,le=1,ge=1', 'le=1,required', 'required,ge=3|m3,le=1|m1', 'ge=3,exist,le=1'; Leaf's own fields carry two rules each) (+unexported incl. names starting with '_' / a CJK or non-ASCII lower-case letter, time.Time, unmarked extras), " +
 			"nested once more through every container of Mid (depth 3; thorough: unmarked outer fields too, and a depth-4 space over 8 container kinds per level); values: nil / zero / valid / violating nodes, collections of length 0..2 with every mix; top-level input T,*T,**T,[]T,[]*T,[2]T,map[string]*T,map[int]T; " +
 			"plus a named Parent/Mid/Leaf family structs with up to 130 fields, and self-referential chains to depth 200 through pointers, slices and maps; a Cart type whose slice / pointer / value / map fields carry call-supplied functions under names that merely start like a marker (required_with, exists_in_book, requiredx, existing, exist_, required2) next to real markers; Leaf = {required, to=1~3, either group of two}; expected clauses from the walk model: field clauses compared in order (as a multiset when a map with >=2 entries is iterated), group clauses (reported after the walk, path-qualified per sub-object) after them as a multiset; non-trivial = a violation at depth>=2",
 		Assumptions: []string{"acyclic graphs only (statement)", "walk model internal/walk"},
